@@ -1,0 +1,122 @@
+//go:build verif
+
+// Contracts for the deductive verifier in /verif (gowp).  This file contains no
+// executable code: only "//@" specification comments, read by the verification
+// condition generator.  It is compiled only under the build tag "verif".
+package otto
+
+// ---------------------------------------------------------------------------
+// Shared predicates and specification functions
+// ---------------------------------------------------------------------------
+
+//@ spec isGoInt(v Value) bool = is(v.value, int) || is(v.value, int8) || is(v.value, int16) || is(v.value, int32) || is(v.value, int64)
+//@ spec isGoUint(v Value) bool = is(v.value, uint) || is(v.value, uint8) || is(v.value, uint16) || is(v.value, uint32) || is(v.value, uint64)
+//@ spec isGoNumber(v Value) bool = v.kind == valueNumber && (isGoInt(v) || isGoUint(v) || is(v.value, float64))
+
+// wfValue: kind and dynamic type of the payload agree (the invariant every Value
+// constructor establishes).
+//@ spec wfValue(v Value) bool = (v.kind == valueUndefined ==> isnil(v.value)) &&
+//@+  (v.kind == valueNull ==> isnil(v.value)) &&
+//@+  (v.kind == valueNumber ==> isGoNumber(v)) &&
+//@+  (v.kind == valueBoolean ==> is(v.value, bool)) &&
+//@+  (v.kind == valueString ==> is(v.value, string) || is(v.value, []uint16)) &&
+//@+  (v.kind == valueObject ==> is(v.value, *object) && v.value.(*object) != nil) &&
+//@+  (v.kind == valueEmpty ==> isnil(v.value)) &&
+//@+  (v.kind == valueResult ==> is(v.value, result)) &&
+//@+  (v.kind == valueReference ==> !isnil(v.value)) &&
+//@+  valueUndefined <= v.kind && v.kind <= valueReference
+// jsValue: a well-formed value of one of the six ES5 language types (what scripts and
+// the conversion kernels see; references and completion records are resolved before).
+//@ spec jsValue(v Value) bool = wfValue(v) && v.kind <= valueObject
+
+// numOf: the real number a Go-number payload denotes, as the double ToNumber yields
+// (exact for every type except 64-bit integers beyond 2^53, which round to nearest even).
+//@ spec numOf(v Value) float64 = ite(is(v.value, float64), v.value.(float64),
+//@+  ite(is(v.value, int), float64(v.value.(int)), ite(is(v.value, int8), float64(v.value.(int8)),
+//@+  ite(is(v.value, int16), float64(v.value.(int16)), ite(is(v.value, int32), float64(v.value.(int32)),
+//@+  ite(is(v.value, int64), float64(v.value.(int64)), ite(is(v.value, uint), float64(v.value.(uint)),
+//@+  ite(is(v.value, uint8), float64(v.value.(uint8)), ite(is(v.value, uint16), float64(v.value.(uint16)),
+//@+  ite(is(v.value, uint32), float64(v.value.(uint32)), float64(v.value.(uint64))))))))))))
+
+// ES5 9.6 ToUint32 written over the IEEE-754 fields of the double with bit pattern b:
+// sign s, biased exponent e, significand M = 1.m as a 53-bit integer, x = ±M·2^(e-1075).
+// NaN, ±Infinity and |x| < 1 give 0; otherwise floor(|x|) mod 2^32, negated for s = 1.
+//@ smt es5ToUint32(b uint64) uint32 = (let ((e ((_ extract 62 52) b)) (s ((_ extract 63 63) b)))
+//@+ (let ((M ((_ zero_extend 11) (concat #b1 ((_ extract 51 0) b)))) (E ((_ zero_extend 53) e)))
+//@+ (ite (or (= e #b11111111111) (bvult E #x00000000000003ff)) #x00000000
+//@+ (let ((sh (bvsub E #x0000000000000433)))
+//@+ (let ((mag (ite (bvsge sh #x0000000000000000)
+//@+               (ite (bvuge sh #x0000000000000020) #x00000000 ((_ extract 31 0) (bvshl M sh)))
+//@+               ((_ extract 31 0) (bvlshr M (bvneg sh))))))
+//@+ (ite (= s #b1) (bvneg mag) mag))))))
+// ES5 9.5 / 9.7: ToInt32 and ToUint16 are ToUint32 reinterpreted / reduced mod 2^16.
+//@ smt es5ToInt32(b uint64) int32 = (es5ToUint32 b)
+//@ smt es5ToUint16(b uint64) uint16 = ((_ extract 15 0) (es5ToUint32 b))
+
+// sanity lemmas: ground instances from ES5 / well-known values
+//@ sanity[C05] es5ToInt32(float64bits(2147483648.0)) == -2147483648
+//@ sanity[C05] es5ToInt32(float64bits(-1.5)) == -1
+//@ sanity[C05] es5ToInt32(float64bits(9223372036854777856.0)) == 2048
+//@ sanity[C05] es5ToUint32(float64bits(-1.0)) == 4294967295
+//@ sanity[C05] es5ToUint32(float64bits(4294967296.0)) == 0
+//@ sanity[C05] es5ToUint32(float64bits(4294967297.5)) == 1
+//@ sanity[C05] es5ToUint16(float64bits(65537.0)) == 1
+//@ sanity[C05] es5ToUint32(float64bits(0.9999)) == 0
+
+// ES5 9.4 ToInteger on a double.
+//@ spec es5ToInteger(x float64) float64 = ite(isNaN(x), 0.0, ite(isInf(x), x, trunc(x)))
+
+// saturating truncation to int64 (what the index kernels use as ToInteger)
+//@ spec satInt64(x float64) int64 = ite(isNaN(x), 0, ite(x >= 9223372036854775808.0, 9223372036854775807,
+//@+  ite(x <= -9223372036854775808.0, -9223372036854775808, int64(trunc(x)))))
+
+// ---------------------------------------------------------------------------
+// value_number.go
+// ---------------------------------------------------------------------------
+
+//@ func (Value).float64
+//@   props C05
+//@   requires jsValue(v)
+//@   ensures isGoNumber(v) ==> sameFloat(result, numOf(v))
+//@   ensures v.kind == valueUndefined ==> isNaN(result)
+//@   ensures v.kind == valueNull ==> result == 0.0 && !signbit(result)
+//@   ensures is(v.value, bool) && v.kind == valueBoolean ==> result == ite(v.value.(bool), 1.0, 0.0)
+
+//@ func toInt32
+//@   props C05
+//@   requires jsValue(value)
+//@   ensures isGoNumber(value) ==> result == es5ToInt32(float64bits(numOf(value)))
+//@   region fabs(numOf(value)) >= 9223372036854775808.0
+
+//@ func toUint32
+//@   props C05
+//@   requires jsValue(value)
+//@   ensures isGoNumber(value) ==> result == es5ToUint32(float64bits(numOf(value)))
+//@   region fabs(numOf(value)) >= 9223372036854775808.0
+
+//@ func toUint16
+//@   props C05
+//@   requires jsValue(value)
+//@   ensures isGoNumber(value) ==> result == es5ToUint16(float64bits(numOf(value)))
+//@   region fabs(numOf(value)) >= 9223372036854775808.0
+
+//@ func toIntegerFloat
+//@   props C05
+//@   requires jsValue(value)
+//@   ensures isGoNumber(value) ==> sameFloat(result, es5ToInteger(numOf(value)))
+
+//@ func (Value).number
+//@   props C05 C08 C09
+//@   requires jsValue(v)
+//@   ensures isGoNumber(v) && (is(v.value, float64) || is(v.value, uint) || is(v.value, uint64)) ==> result.int64 == satInt64(numOf(v))
+//@   ensures isGoNumber(v) && is(v.value, int) ==> result.int64 == int64(v.value.(int))
+//@   ensures isGoNumber(v) && is(v.value, int64) ==> result.int64 == v.value.(int64)
+//@   ensures isGoNumber(v) && is(v.value, int32) ==> result.int64 == int64(v.value.(int32))
+//@   ensures isGoNumber(v) && is(v.value, uint32) ==> result.int64 == int64(v.value.(uint32))
+//@   ensures isGoNumber(v) && is(v.value, int16) ==> result.int64 == int64(v.value.(int16))
+//@   ensures isGoNumber(v) && is(v.value, uint16) ==> result.int64 == int64(v.value.(uint16))
+//@   ensures isGoNumber(v) && is(v.value, int8) ==> result.int64 == int64(v.value.(int8))
+//@   ensures isGoNumber(v) && is(v.value, uint8) ==> result.int64 == int64(v.value.(uint8))
+//@   ensures isGoNumber(v) ==> (result.kind == numberNaN <==> isNaN(numOf(v)))
+//@   ensures isGoNumber(v) ==> (result.kind == numberInfinity <==> isInf(numOf(v)))
+//@   ensures isGoNumber(v) && fabs(numOf(v)) < 9223372036854775808.0 ==> (result.kind == numberInteger <==> numOf(v) == trunc(numOf(v)))
